@@ -41,6 +41,41 @@ func checkC04(r *Run) {
 	checkCacheInvalidate(r, p)
 	checkDeleteRoles(r, p)
 	checkGCRewriteLoop(r, p)
+	checkReaderRegistration(r, p, la)
+}
+
+// checkReaderRegistration: garbage collection excludes readers by holding fc.readers while
+// it swaps a file and by skipping files that have registered handles. That only works if a
+// read handle is opened and registered inside one hold of fc.readers.
+func checkReaderRegistration(r *Run, p *Prog, la *LockAnalysis) {
+	const cls = "cesium/internal/domain.fileController.readers"
+	n := 0
+	for _, fn := range p.FuncsOfPkg(domainPkg) {
+		if fn.Decl == nil || fn.Body == nil || recvName(fn.Decl) != "(*fileController)" {
+			continue
+		}
+		inspectNoLit(fn.Body, func(x ast.Node) bool {
+			call, ok := x.(*ast.CallExpr)
+			if !ok || len(call.Args) != 2 {
+				return true
+			}
+			f := CalleeFunc(fn, call)
+			if f == nil || f.Name() != "Open" || f.Pkg() == nil || !strings.HasSuffix(f.Pkg().Path(), "x/io/fs") {
+				return true
+			}
+			// read-only opens of a data file
+			if v, isConst := constInt(fn, call.Args[1]); !isConst || v != 0 {
+				return true
+			}
+			n++
+			r.Ob("C04.R3.gc", "read handle opened in "+fn.Name+" under the reader pool lock", p.Position(call.Pos()), la.HeldAt(call, cls, ModeW),
+				"a handle opened before fc.readers is taken is invisible to a garbage collection that swaps the file in between; it is then pooled and serves the old file at the new offsets")
+			return true
+		})
+	}
+	if n < 1 {
+		r.Undecide("C04.R3: no read-only FS.Open found in fileController (reader registration lost its anchor)")
+	}
 }
 
 // checkGCRewriteLoop: the loop of garbageCollectFile that rewrites pointer offsets visits
